@@ -77,7 +77,8 @@ func (o *Operations) Delete(name string) error {
 			return err
 		}
 
-		hdr.Size = 0 // Don't try to seek after the record
+		hdr.Size = 0               // Don't try to seek after the record
+		hdr.Format = tar.FormatPAX // The STFS records below need PAX, whatever format the indexed header was read as
 		hdr.PAXRecords[records.STFSRecordVersion] = records.STFSRecordVersion1
 		hdr.PAXRecords[records.STFSRecordAction] = records.STFSRecordActionDelete
 
